@@ -64,6 +64,9 @@ func (g *Gen) query(o *Oblig, extra string) string {
 			}
 		}
 	}
+	for _, i := range o.Hide {
+		skip[i] = true
+	}
 	for i, d := range g.defs[:n] {
 		if skip[i] {
 			continue
